@@ -22,6 +22,9 @@ ASSUMPTIONS = ["the stand-alone parse of the expression is the reference (its me
 CANDIDATES = ["beers", "burgers", "call", "lunch", "with", "john", "milk", "buy", "meeting", "xyz", "projekt", "kaffee", "review", "dentist", "zzz", "pizza", "report", "gym", "yoga", "book", "flight", "pick", "up",
               "kids", "grill", "bbq", "sync", "quux", "foo", "bar", "baz", "wobble", "grok", "plugh", "rugby", "jog", "cook", "rice", "vill", "kukk", "pixel", "lobby", "yolk", "ruby", "wow", "klo", "zoo"]
 
+# words that BEGIN like the tail of a pattern (ordinal suffix, am/pm, uhr/h): inert by the same test, placed directly behind the expression
+HAZARD_SUFFIX_WORDS = ["stars", "stew", "thx", "rdx", "ndx", "pmx", "amx", "terrace", "tennis", "hat", "uhrwerk", "hx", "amber", "pmo"]
+
 _pool = None
 
 
@@ -56,6 +59,10 @@ def plan(tier, seed):
     if tier == "thorough":
         exprs += [(s, "2020-02-29T23:59:30") for _, s in grammar.sentences()] + [(t, "2019-12-31T23:59:30") for t, ts in alphabet.corpus_sentences()]
     exprs = list(dict.fromkeys(exprs))
+    m = lib()[2]
+    from ctparse import rule as RU
+
+    hazard = [w for w in HAZARD_SUFFIX_WORDS if not m._match_regex(w, RU._regex) and not m._match_regex("x " + w + " y", RU._regex)]
 
     def gen():
         for expr, ts in exprs:
@@ -65,8 +72,11 @@ def plan(tier, seed):
                         if p == 0 and s == 0:
                             continue
                         yield (expr, ts, latent, tuple(pool[:p]), tuple(pool[3 : 3 + s]))
+                for hw in hazard:
+                    yield (expr, ts, latent, (), (hw,))
+                    yield (expr, ts, latent, (pool[0],), (hw, pool[3]))
 
-    space = {"expressions": len(exprs), "prefix_suffix_combinations": 15, "latent": 2, "inert_pool": pool, "candidates": len(CANDIDATES)}
+    space = {"expressions": len(exprs), "prefix_suffix_combinations": 15, "latent": 2, "inert_pool": pool, "hazard_suffix_words": hazard, "candidates": len(CANDIDATES)}
     return {"space": space, "cases": gen(), "chunk": 64, "hash_distinct": True}
 
 
